@@ -17,8 +17,8 @@ echo "== with patch: lib tests" >> $LOG
 cargo test --offline --lib 2>&1 | grep -E "^test result|FAILED|panicked" | head -5 >> $LOG
 echo "== with patch: demo ($T)" >> $LOG
 cargo test --offline --test $T 2>&1 | grep -E "^test result|^test .* (ok|FAILED)" | head -20 >> $LOG
-git stash push -q -- src
+git apply -R $OUT/patch.diff
 echo "== without patch: demo ($T)" >> $LOG
 cargo test --offline --test $T 2>&1 | grep -E "^test result|^test .* (ok|FAILED)" | head -20 >> $LOG
-git stash pop -q
+git apply $OUT/patch.diff
 cat $LOG
